@@ -507,23 +507,59 @@ func checkWebUIAndIsRunning(c *Ctx) {
 						continue
 					}
 					bi, isB := cv.Common().Value.(*ssa.Builtin)
-					if !isB || bi.Name() != "close" {
-						continue
-					}
-					// a cache close dominates this close(ch)
-					dominated := false
-					for _, b2 := range a.Blocks {
-						for _, i2 := range b2.Instrs {
-							if closesCache(i2) && instrDominates(i2, cv) {
-								dominated = true
+					var arg ssa.Value
+					if isB && bi.Name() == "close" {
+						// a cache close dominates this close(ch)
+						dominated := false
+						for _, b2 := range a.Blocks {
+							for _, i2 := range b2.Instrs {
+								if closesCache(i2) && instrDominates(i2, cv) {
+									dominated = true
+								}
 							}
 						}
-					}
-					if !dominated {
+						if !dominated {
+							continue
+						}
+						arg = cv.Common().Args[0]
+					} else if h := cv.Common().StaticCallee(); h != nil && len(h.Blocks) > 0 && fnPkgPath(h) == fnPkgPath(fn) {
+						// the teardown extracted into a same-package helper: the helper closes one of its
+						// channel parameters after it closed the cache
+						for _, hb := range h.Blocks {
+							for _, hi := range hb.Instrs {
+								hc, isHC := hi.(*ssa.Call)
+								if !isHC {
+									continue
+								}
+								hbi, isHB := hc.Common().Value.(*ssa.Builtin)
+								if !isHB || hbi.Name() != "close" {
+									continue
+								}
+								dominated := false
+								for _, b2 := range h.Blocks {
+									for _, i2 := range b2.Instrs {
+										if closesCache(i2) && instrDominates(i2, hc) {
+											dominated = true
+										}
+									}
+								}
+								if !dominated {
+									continue
+								}
+								for pi, p := range h.Params {
+									if stripConv(hc.Common().Args[0]) == ssa.Value(p) && pi < len(cv.Common().Args) {
+										arg = cv.Common().Args[pi]
+									}
+								}
+							}
+						}
+						if arg == nil {
+							continue
+						}
+					} else {
 						continue
 					}
 					// the channel: a captured variable of the goroutine → its binding in fn
-					arg := cv.Common().Args[0]
 					if ld, isLd := arg.(*ssa.UnOp); isLd {
 						if fv, isFV := ld.X.(*ssa.FreeVar); isFV {
 							for _, ins2 := range allInstrs(fn) {
